@@ -191,13 +191,13 @@ impl Probe for ConvergeProbe {
 
 pub fn scenarios(thorough: bool) -> Vec<Scenario> {
     let mut v = vec![];
-    v.push(pair_scenario("pair-arrays", if thorough { &[1, 2, 3, 6, 9] } else { &[2, 3, 9] }, if thorough { 6 } else { 4 },
+    v.push(pair_scenario("pair-arrays", if thorough { &[1, 2, 3, 6, 9] } else { &[2, 3, 9] }, if thorough { 6 } else { 5 },
         &[Op::Resolve(0, 0, 0), Op::Resolve(1, 0, 1), Op::Meld(0, 1), Op::Meld(1, 0)]));
-    v.push(pair_conflict_scenario("pair-conflict", 2, 3, if thorough { &[1, 6, 8, 4] } else { &[1, 8] }, if thorough { 5 } else { 3 },
+    v.push(pair_conflict_scenario("pair-conflict", 2, 3, if thorough { &[1, 6, 8, 4] } else { &[1, 8] }, if thorough { 5 } else { 4 },
         &[Op::Resolve(1, 0, 0), Op::Resolve(1, 0, 1), Op::Resolve(0, 0, 0), Op::Meld(0, 1)]));
-    v.push(pair_conflict_scenario("pair-conflict-edit-vs-delete", 4, 3, &[8, 9], if thorough { 4 } else { 3 },
+    v.push(pair_conflict_scenario("pair-conflict-edit-vs-delete", 4, 3, &[8, 9], if thorough { 5 } else { 4 },
         &[Op::Resolve(1, 0, 0), Op::Resolve(1, 0, 1), Op::Resolve(1, 1, 0), Op::Resolve(0, 0, 1)]));
-    v.push(trio_scenario("trio", if thorough { 7 } else { 5 }));
+    v.push(trio_scenario("trio", if thorough { 8 } else { 6 }));
     v.push(long_chain_scenario("pair-long-chain", if thorough { 3 } else { 2 }, &[]));
     v.push(tie_scenario("pair-tie", if thorough { 4 } else { 3 }, &[]));
     v.push(two_patch_scenario("pair-two-patches", if thorough { 4 } else { 3 }, &[]));
@@ -211,8 +211,8 @@ pub fn run(thorough: bool) {
         scenarios: scenarios(thorough),
         probes: vec![Arc::new(ConvergeProbe { deviations: true })],
         pools: vec![1],
-        time_budget_s: if thorough { 2400 } else { 40 },
-        max_states: if thorough { 200_000 } else { 3_000 },
+        time_budget_s: if thorough { 2400 } else { 50 },
+        max_states: if thorough { 200_000 } else { 20_000 },
         stop_on_violation: true,
     });
     rep.set("rule", json!("every distinct state of the 2- and 3-replica scenarios; for every ordered pair of replicas without staged changes the union of their storages is reached by: fresh open on a file copy (also under reversed/rotated hash-iteration and listing orders), copy+refresh, reload, one-item-at-a-time refresh in ascending and descending order, and meld+refresh in both directions to a fix-point; all views (objects, winners, conflict sets, values, document, heads) must be equal. distinct_nontrivial = distinct converged views observed"));
